@@ -15,7 +15,7 @@ PROPS = {
   'quick': {'cases': 6400, 'max_size': 200, 'exhaustive': True, 'wall_s': 600},
   'thorough': {'cases': 128000, 'max_size': 400, 'exhaustive': True, 'wall_s': 1800, 'fuzz': {'runs': 150000, 'max_len': 600}},
   'sim': ['simsock'],
-  'essential_classes': ['mode:edit', 'edit:element-emptied', 'stream:many-segments', 'tree:overflow-tree', 'element:overflow-tree', 'tree:buf-too-small', 'element:buf-too-small', 'parse:nested-mistiled', 'stream:complete', 'stream:truncated'],
+  'essential_classes': ['mode:edit-element', 'edit-element:child-with-long-header-on-short-value', 'edit-element:emptied', 'edit-element:nested-child-edited-while-attached', 'mode:edit', 'edit:element-emptied', 'stream:many-segments', 'tree:overflow-tree', 'element:overflow-tree', 'tree:buf-too-small', 'element:buf-too-small', 'parse:nested-mistiled', 'stream:complete', 'stream:truncated'],
   'assumptions': ['reference encoder/decoder in ref/tlv.cpp is correct (self-tested in setup)', 'clang ASan/UBSan report out-of-bounds accesses'],
  }, 'C17': {
   'technique': 'property-based testing (rapidcheck) with exhaustive corruption neighbourhoods against a reference base-32/CRC-32 codec',
@@ -45,8 +45,8 @@ PROPS = {
   'quick': {'cases': 6400, 'max_size': 200, 'exhaustive': True, 'wall_s': 900},
   'thorough': {'cases': 200000, 'max_size': 300, 'exhaustive': True, 'wall_s': 3000},
   'essential_classes': ['setters:valid', 'setters:invalid:correction > 255', 'setters:invalid:level > 255', 'parsed:with-refused-level', 'parsed:has-metadata', 'parsed:has-legacy-id',
-                        'cal:valid-with-alg-switch', 'caltime:valid', 'caltime:impossible', 'shape:too-long', 'list:valid'],
-  'assumptions': ['Crypto++ digests are correct', 'publication times below 2^62 (time_t output)'],
+                        'cal:valid-with-alg-switch', 'caltime:valid', 'caltime:impossible', 'shape:too-long', 'list:valid', 'caltime:publication-time>=2^62', 'parsed:metadata-read-through-getters'],
+  'assumptions': ['Crypto++ digests are correct', 'publication times below 2^63 (time_t output)'],
  }, 'C05': {
   'technique': 'model-based property testing: exhaustive small rule trees x outcome assignments + rapidcheck random trees against a reference interpreter',
   'level_text': 'Instrumented user rules (256 distinct functions recording their invocation) are arranged into generated rule trees and fallback chains; the SDK '
@@ -59,7 +59,7 @@ PROPS = {
           'Non-trivial = at least one composite node (or a fallback) and at least one non-OK outcome; distinct = distinct (tree, outcomes, chain) rendering.',
   'quick': {'cases': 6400, 'max_size': 200, 'exhaustive': True, 'wall_s': 900},
   'thorough': {'cases': 200000, 'max_size': 300, 'exhaustive': True, 'wall_s': 3000},
-  'essential_classes': ['end:error', 'end:OK', 'end:NA', 'end:FAIL', 'policies-evaluated:4', 'chain-length:3', 'depth:3'],
+  'essential_classes': ['rule-without-verdict', 'end:error', 'end:OK', 'end:NA', 'end:FAIL', 'policies-evaluated:4', 'chain-length:3', 'depth:3'],
   'assumptions': ['reference interpreter reflects the documented semantics'],
  }, 'C12': {
   'technique': 'coverage-guided fuzzing (libFuzzer, ASan/UBSan) + rapidcheck structure-aware TLV mutation, with per-case allocation accounting',
@@ -123,7 +123,7 @@ PROPS = {
           'Non-trivial = a hash deviation or a non-zero level; distinct = distinct (API, policy, deviation, bit bucket, level, L0, algorithm).',
   'quick': {'cases': 12800, 'max_size': 200, 'exhaustive': True, 'wall_s': 900},
   'thorough': {'cases': 256000, 'max_size': 300, 'exhaustive': True, 'wall_s': 3000},
-  'essential_classes': ['deviation:bit-flip', 'deviation:other-alg-same-digest', 'deviation:other-alg', 'deviation:level', 'deviation:level>255', 'deviation:combined', 'no-deviation', 'api:verifyWithPolicy+context', 'api:verifyDataHash', 'api:verifyDocument', 'policy:general', 'policy:key'],
+  'essential_classes': ['deviation:bit-flip', 'deviation:other-alg-same-digest', 'deviation:other-alg', 'deviation:level', 'deviation:level>255', 'deviation:combined', 'no-deviation', 'api:verifyWithPolicy+context', 'api:verifyDataHash', 'api:verifyDocument', 'policy:general', 'policy:key', 'ctx-split:level-in-context', 'ctx-split:hash-in-context'],
   'assumptions': ['reference builder produces consistent signatures (checked per case with the reference evaluation)'],
  }, 'C07': {
   'technique': 'model-based property testing (rapidcheck): reference aggregator with a deviation catalogue behind simulated TCP/HTTP transports; returned signatures decoded and evaluated by the reference model',
@@ -137,7 +137,7 @@ PROPS = {
   'quick': {'cases': 6400, 'max_size': 300, 'wall_s': 900},
   'thorough': {'cases': 128000, 'max_size': 400, 'wall_s': 3000},
   'sim': ['simsock', 'fakecurl', 'simclock'],
-  'essential_classes': ['dev:no-request-id', 'readd:same-handle-added-again', 'api:block-signer', 'reply:chains-not-lowest-first', 'dev:honest', 'dev:foreign-id', 'dev:other-hash', 'dev:status', 'dev:error-pdu', 'dev:error-pdu-status0', 'dev:bad-mac', 'dev:no-mac', 'dev:inconsistent-chains', 'dev:other-pdu-version', 'outcome:success', 'outcome:error',
+  'essential_classes': ['credentials-in-uri:key-with-colon', 'reply:request-echoed-around-unauthenticated-response', 'dev:no-request-id', 'readd:same-handle-added-again', 'api:block-signer', 'reply:chains-not-lowest-first', 'dev:honest', 'dev:foreign-id', 'dev:other-hash', 'dev:status', 'dev:error-pdu', 'dev:error-pdu-status0', 'dev:bad-mac', 'dev:no-mac', 'dev:inconsistent-chains', 'dev:other-pdu-version', 'outcome:success', 'outcome:error',
                         'api:async', 'api:signAggregated', 'transport:http', 'transport:tcp', 'pdu:v1', 'pdu:v2', 'untrusted-algorithm'],
   'assumptions': ['simulated sockets / libcurl behave as documented'],
  }, 'C06': {
@@ -166,7 +166,7 @@ PROPS = {
   'quick': {'cases': 6400, 'max_size': 300, 'wall_s': 900},
   'thorough': {'cases': 128000, 'max_size': 400, 'wall_s': 3000},
   'sim': ['simsock', 'fakecurl', 'simclock'],
-  'essential_classes': ['reply:correct', 'reply:wrong-id', 'reply:no-status-wrong-id', 'reply:right-link-altered', 'altered:shared-right-link', 'altered:last-shared-right-link', 'reply:other-input-hash', 'reply:shape-flip', 'reply:other-aggr-time', 'api:async', 'api:extend(pubRec)', 'api:extendTo',
+  'essential_classes': ['reply:request-echoed-around-forged-response', 'reply:correct', 'reply:wrong-id', 'reply:no-status-wrong-id', 'reply:right-link-altered', 'altered:shared-right-link', 'altered:last-shared-right-link', 'reply:other-input-hash', 'reply:shape-flip', 'reply:other-aggr-time', 'api:async', 'api:extend(pubRec)', 'api:extendTo',
                         'src:nocal', 'src:cal+pub', 'src:cal+auth', 'target:earlier', 'target:head', 'outcome:success', 'outcome:error'],
   'assumptions': ['simulated calendar is coherent in the way real calendars are (left subtrees never change)'],
  }, 'C20': {
@@ -253,7 +253,7 @@ PROPS = {
           'examined at least 3 elements; distinct = distinct (kind, origin, mutation list with tree paths, reference verdict and violated rules).',
   'quick': {'cases': 48000, 'max_size': 400, 'exhaustive': True, 'wall_s': 900},
   'thorough': {'cases': 800000, 'max_size': 600, 'exhaustive': True, 'wall_s': 3400, 'fuzz': {'runs': 300000, 'max_len': 1200, 'jobs': 16}},
-  'essential_classes': ['mut:misplace-with-N-flag', 'mut:add-valid-field', 'agree:accept', 'agree:reject', 'kind:signature', 'kind:aggr-pdu-v1', 'kind:aggr-req-pdu-v2', 'kind:aggr-resp-pdu-v2', 'kind:ext-pdu-v1', 'kind:ext-req-pdu-v2', 'kind:ext-resp-pdu-v2', 'kind:pubfile',
+  'essential_classes': ['mut:value-octet:legacy-id', 'mut:misplace-with-N-flag', 'mut:add-valid-field', 'agree:accept', 'agree:reject', 'kind:signature', 'kind:aggr-pdu-v1', 'kind:aggr-req-pdu-v2', 'kind:aggr-resp-pdu-v2', 'kind:ext-pdu-v1', 'kind:ext-req-pdu-v2', 'kind:ext-resp-pdu-v2', 'kind:pubfile',
                         'fields:compared-with-model', 'metamorphic:unknown-nc-vs-base', 'metamorphic:verdict-compared', 'unknown-nc:inside-hashed-content',
                         'rule-violated:int-not-minimal', 'rule-violated:mutually-exclusive-elements-combined', 'rule-violated:unknown-critical-element', 'rule-violated:single-valued-element-repeated',
                         'rule-violated:mandatory-element-missing', 'rule-violated:at-least-one-group-empty', 'rule-violated:not-first', 'rule-violated:after-last-element', 'rule-violated:section-out-of-order',
@@ -300,7 +300,7 @@ PROPS = {
   'essential_classes': ['extender:aggr-time-omitted', 'policy:user-publication', 'policy:publications-file', 'policy:key', 'policy:calendar', 'policy:general', 'bound:reported-OK', 'observed:OK', 'observed:FAIL', 'observed:NA',
                         'expect:FAIL:extension-contradicts', 'expect:FAIL:calendar-contradicts', 'expect:FAIL:same-time-other-hash', 'expect:FAIL:file-has-other-hash-for-that-time', 'expect:FAIL:certificate-not-valid-at-aggregation-time,',
                         'expect:FAIL:pki-signature-invalid,', 'expect:inconclusive:extension-failed', 'expect:inconclusive:extending-forbidden', 'expect:inconclusive:publications-file-unavailable',
-                        'expect:inconclusive:certificate-not-listed', 'expect:never-ok(internal)', 'extender-contacted', 'publications-file-downloaded', 'extender:error-status-with-chain'],
+                        'expect:inconclusive:certificate-not-listed', 'expect:never-ok(internal)', 'extender-contacted', 'publications-file-downloaded', 'extender:error-status-with-chain', 'auth-sig:arbitrary-octets/ec', 'auth-sig:trailing-octet/ec', 'auth-sig:valid/ec', 'auth-sig:cut/rsa'],
   'assumptions': ['the extender is reached only through the simulated transports', 'only the generated inputs are covered'],
  },
  'C19': {
